@@ -4,13 +4,14 @@ import signal
 from ..runner import BaseCheck, WatchdogTimeout
 from .. import env, hx, probe
 
-CASE_WALL_SECONDS = 6.0
+CASE_WALL_SECONDS = 6.0      # CPU seconds of this (single-threaded) worker: ITIMER_VIRTUAL, immune to a loaded machine
 
 
 class FormulaCheck(BaseCheck):
     """run() dispatches to c_<campaign>(spec, rec) with self.e (hx.Env) and self.rec ready.
 
-    Every parse runs under a cheap wall-clock guard.  When the guard fires the same formula is re-run under the
+    Every parse runs under a cheap CPU-time guard (ITIMER_VIRTUAL: user CPU time of this single-threaded worker, so a
+    starved process on a loaded machine cannot trip it).  When the guard fires the same formula is re-run under the
     deterministic step counter: exceeding the step budget there is a *violation* (a call that does not terminate);
     staying inside it is only *inconclusive* (a slow machine or a long C-level operation)."""
 
@@ -29,30 +30,30 @@ class FormulaCheck(BaseCheck):
         raise WatchdogTimeout('case wall guard')
 
     def parse(self, f):
-        old = signal.signal(signal.SIGALRM, self._alarm)
-        signal.setitimer(signal.ITIMER_REAL, CASE_WALL_SECONDS)
+        old = signal.signal(signal.SIGVTALRM, self._alarm)
+        signal.setitimer(signal.ITIMER_VIRTUAL, CASE_WALL_SECONDS)
         try:
             return self.e.p.parse(f)
         except WatchdogTimeout:
-            signal.setitimer(signal.ITIMER_REAL, 0)
+            signal.setitimer(signal.ITIMER_VIRTUAL, 0)
             return self._decide_nontermination(f)
         finally:
-            signal.setitimer(signal.ITIMER_REAL, 0)
-            signal.signal(signal.SIGALRM, old)
+            signal.setitimer(signal.ITIMER_VIRTUAL, 0)
+            signal.signal(signal.SIGVTALRM, old)
 
     def _decide_nontermination(self, f):
         sc = probe.StepCounter()
         sc.start()
         try:
             budget = probe.budget_for(f, 50)
-            signal.signal(signal.SIGALRM, self._alarm)
-            signal.setitimer(signal.ITIMER_REAL, 60)
+            signal.signal(signal.SIGVTALRM, self._alarm)
+            signal.setitimer(signal.ITIMER_VIRTUAL, 60)
             try:
                 r, steps, exceeded = sc.run(lambda: self.e.p.parse(f), budget)
             except WatchdogTimeout:
                 r, steps, exceeded = None, sc.steps, None
             finally:
-                signal.setitimer(signal.ITIMER_REAL, 0)
+                signal.setitimer(signal.ITIMER_VIRTUAL, 0)
         finally:
             sc.stop()
         fn = f.split('(')[0][:20]
